@@ -2,9 +2,11 @@ package c20
 
 import (
 	"fmt"
+	"runtime"
 	"sort"
 	"strings"
 	"sync"
+	"sync/atomic"
 	"time"
 
 	xconf "github.com/xuperchain/xupercore/kernel/common/xconfig"
@@ -21,6 +23,7 @@ import (
 
 // dispatcher fixture: three recording subscribers, three messages.
 type fixture struct {
+	sp    *spec
 	d     p2p.Dispatcher
 	subs  []p2p.Subscriber
 	msgs  []*pb.XuperMessage
@@ -49,26 +52,58 @@ type recStream struct{}
 
 func (recStream) Send(*pb.XuperMessage) error { return nil }
 
-var subSpec = []struct {
+// endpoint is a subscriber (type + filters, "" = filter not set) or a message
+// (type + header fields).
+type endpoint struct {
 	typ    pb.XuperMessage_MessageType
 	bc, fr string
-}{
+}
+
+// spec is the population of one fixture.
+type spec struct {
+	subs, msgs []endpoint
+}
+
+var subSpec = []endpoint{
 	{pb.XuperMessage_GET_BLOCK, "xuper", ""},
 	{pb.XuperMessage_GET_BLOCK, "", "peerA"},
 	{pb.XuperMessage_POSTTX, "", ""},
 }
 
-var msgSpec = []struct {
-	typ    pb.XuperMessage_MessageType
-	bc, fr string
-}{
+var msgSpec = []endpoint{
 	{pb.XuperMessage_GET_BLOCK, "xuper", "peerA"}, // matches s0, s1
 	{pb.XuperMessage_GET_BLOCK, "xuper", "peerB"}, // matches s0
 	{pb.XuperMessage_POSTTX, "other", "peerB"},    // matches s2
 }
 
-func matches(si, mi int) bool {
-	s, m := subSpec[si], msgSpec[mi]
+// Header variants of the operation-sequence and schedule enumeration: the
+// header of message m0 (the one every concurrent pattern dispatches) takes every
+// value of From x Bcname below; the values are chosen relative to the filters of
+// s1 (sender "peerA") and s0 (chain "xuper"): equal, empty, another value, a
+// proper prefix, an extension. Variant 0 is the base population above.
+var (
+	varFrom = []string{"peerA", "", "peerB", "peer", "peerAx"}
+	varBc   = []string{"xuper", "", "other", "xupe", "xuperx"}
+)
+
+func numVariants() int { return len(varFrom) * len(varBc) }
+
+func variantSpec(v int) *spec {
+	sp := &spec{subs: subSpec, msgs: append([]endpoint(nil), msgSpec...)}
+	sp.msgs[0].fr = varFrom[v%len(varFrom)]
+	sp.msgs[0].bc = varBc[v/len(varFrom)%len(varBc)]
+	return sp
+}
+
+func variantName(v int) string {
+	sp := variantSpec(v)
+	return fmt.Sprintf("m0[from=%q bc=%q]", sp.msgs[0].fr, sp.msgs[0].bc)
+}
+
+// matches is the reference predicate: same type, and every filter that is set
+// equals the header field.
+func (sp *spec) matches(si, mi int) bool {
+	s, m := sp.subs[si], sp.msgs[mi]
 	if s.typ != m.typ {
 		return false
 	}
@@ -81,14 +116,16 @@ func matches(si, mi int) bool {
 	return true
 }
 
-func newFixture() *fixture {
+func newFixture() *fixture { return newFixtureVariant(0) }
+
+func newFixtureVariant(v int) *fixture {
 	world.Init()
-	f := &fixture{}
+	f := &fixture{sp: variantSpec(v)}
 	ctx := &nctx.NetCtx{EnvCfg: xconf.GetDefEnvConf()}
 	ctx.XLog = world.NopLogger{}
 	ctx.Timer = timer.NewXTimer()
 	f.d = p2p.NewDispatcher(ctx)
-	for si, s := range subSpec {
+	for si, s := range f.sp.subs {
 		si := si
 		var opts []p2p.SubscriberOption
 		if s.bc != "" {
@@ -112,7 +149,7 @@ func newFixture() *fixture {
 		})
 		f.subs = append(f.subs, p2p.NewSubscriber(ctx, s.typ, h, opts...))
 	}
-	for k, m := range msgSpec {
+	for k, m := range f.sp.msgs {
 		msg := p2p.NewMessage(m.typ, &pb.XuperMessage{}, p2p.WithBCName(m.bc), p2p.WithLogId(fmt.Sprintf("log-%d", k)))
 		msg.Header.From = m.fr
 		f.msgs = append(f.msgs, msg)
@@ -156,7 +193,7 @@ func (f *fixture) judge() []string {
 	type span struct{ from, to int } // certainly registered in (from, to)
 	regSpans := map[int][]span{}
 	maybe := map[int][]span{} // possibly registered
-	for si := range subSpec {
+	for si := range f.sp.subs {
 		var certainFrom, maybeFrom = -1, -1
 		for _, o := range ops {
 			if o.arg != si || o.err != "" {
@@ -234,10 +271,10 @@ func (f *fixture) judge() []string {
 		if concurrentSame {
 			continue // two dispatches of the same message at once: attribution is ambiguous, not judged
 		}
-		for si := range subSpec {
+		for si := range f.sp.subs {
 			n := count[si]
 			switch {
-			case !matches(si, mi):
+			case !f.sp.matches(si, mi):
 				if n > 0 {
 					out = append(out, fmt.Sprintf("c20.dispatch.delivered_to_non_matching: message m%d was handed to subscriber s%d whose type / filters do not match", mi, si))
 				}
@@ -272,44 +309,96 @@ var opNames = []struct {
 
 func opStr(i int) string { return fmt.Sprintf("%s(%d)", opNames[i].kind, opNames[i].arg) }
 
-// runSequential enumerates all operation sequences up to length n.
-func runSequential(rep *core.Report, n int) (seqs int, deliveries int) {
+// seqResult is what one enumerated sequence produced.
+type seqResult struct {
+	deliveries int
+	sig        string
+	viol       []string
+}
+
+func runOneSequence(v int, idx []int) seqResult {
+	f := newFixtureVariant(v)
+	for _, o := range idx {
+		f.op(opNames[o].kind, opNames[o].arg)
+	}
+	r := seqResult{deliveries: len(f.deliveries)}
+	var sb strings.Builder
+	for _, d := range f.deliveries {
+		fmt.Fprintf(&sb, "%d>%d;", d.msg, d.sub)
+	}
+	r.sig = sb.String()
+	r.viol = f.judge()
+	return r
+}
+
+func decodeSeq(c, n int) []int {
 	idx := make([]int, n)
+	for k := 0; k < n; k++ {
+		idx[k] = c % len(opNames)
+		c /= len(opNames)
+	}
+	return idx
+}
+
+// runSequential enumerates all operation sequences of length n over the header
+// variants [v0, v1) (variant 0 = base population). The sequences are independent
+// (own dispatcher each) and are executed by a pool of workers; results are
+// gathered and reported in index order.
+func runSequential(rep *core.Report, n, v0, v1 int, label string) (seqs int, deliveries int) {
 	total := 1
 	for k := 0; k < n; k++ {
 		total *= len(opNames)
 	}
 	outcomes := map[string]bool{}
-	for c := 0; c < total; c++ {
-		x := c
-		for k := 0; k < n; k++ {
-			idx[k] = x % len(opNames)
-			x /= len(opNames)
+	nw := runtime.NumCPU()
+	if nw > 16 {
+		nw = 16
+	}
+	for v := v0; v < v1; v++ {
+		res := make([]seqResult, total)
+		done := make([]bool, total)
+		var next int64 = -1
+		var wg sync.WaitGroup
+		for w := 0; w < nw; w++ {
+			wg.Add(1)
+			go func() {
+				defer wg.Done()
+				for {
+					c := int(atomic.AddInt64(&next, 1))
+					if c >= total {
+						return
+					}
+					if c%997 == 0 && rep.Expired() {
+						return
+					}
+					res[c] = runOneSequence(v, decodeSeq(c, n))
+					done[c] = true
+				}
+			}()
 		}
-		f := newFixture()
-		for _, o := range idx {
-			f.op(opNames[o].kind, opNames[o].arg)
-		}
-		seqs++
-		deliveries += len(f.deliveries)
-		sig := ""
-		for _, d := range f.deliveries {
-			sig += fmt.Sprintf("%d>%d;", d.msg, d.sub)
-		}
-		outcomes[sig] = true
-		for _, m := range f.judge() {
-			var names []string
-			for _, o := range idx {
-				names = append(names, opStr(o))
+		wg.Wait()
+		for c := 0; c < total; c++ {
+			if !done[c] {
+				continue
 			}
-			rep.Violation(core.Violation{Key: keyOf(m) + ".sequential", Summary: fmt.Sprintf("after %v: %s", names, m),
-				Case: map[string]interface{}{"part": "dispatch-seq", "ops": append([]int(nil), idx...)}})
+			seqs++
+			deliveries += res[c].deliveries
+			outcomes[fmt.Sprintf("v%d:", v)+res[c].sig] = true
+			for _, m := range res[c].viol {
+				idx := decodeSeq(c, n)
+				var names []string
+				for _, o := range idx {
+					names = append(names, opStr(o))
+				}
+				rep.Violation(core.Violation{Key: keyOf(m) + ".sequential", Summary: fmt.Sprintf("%s, after %v: %s", variantName(v), names, m),
+					Case: map[string]interface{}{"part": "dispatch-seq", "ops": idx, "variant": v}})
+			}
 		}
-		if c%997 == 0 && rep.Expired() {
+		if rep.HitDeadline() {
 			break
 		}
 	}
-	rep.Set("dispatch.sequential_distinct_outcomes", len(outcomes))
+	rep.Set("dispatch.sequential_distinct_outcomes"+label, len(outcomes))
 	return
 }
 
@@ -334,10 +423,12 @@ var concPatterns = []struct {
 	{"two_types", []int{0, 2}, [][]int{{6}, {8}, {5}}},         // GET_BLOCK and POSTTX dispatches || unregister s2
 }
 
-func newConc(pi int) func() vsched.Instance {
+func newConc(pi int) func() vsched.Instance { return newConcVariant(pi, 0) }
+
+func newConcVariant(pi, v int) func() vsched.Instance {
 	p := concPatterns[pi]
 	return func() vsched.Instance {
-		f := newFixture()
+		f := newFixtureVariant(v)
 		for _, o := range p.Pre {
 			f.op(opNames[o].kind, opNames[o].arg)
 		}
@@ -367,26 +458,58 @@ func newConc(pi int) func() vsched.Instance {
 	}
 }
 
-// runConcurrent explores all interleavings of each pattern within the bound.
-func runConcurrent(rep *core.Report, bound int) (schedules int, complete bool) {
+// runConcurrent explores all interleavings of each pattern within the bound,
+// for the header variants [v0, v1). Explorations of different variants are
+// independent and run side by side; they are reported in (variant, pattern) order.
+func runConcurrent(rep *core.Report, bound, v0, v1 int) (schedules int, complete bool) {
 	complete = true
-	for pi, p := range concPatterns {
-		x := &vsched.Explorer{New: newConc(pi), Bound: bound, Workers: 4, Horizon: 2000, Stop: rep.Expired}
-		x.Explore()
-		schedules += x.Executions
-		if x.Stopped {
-			complete = false
+	type cell struct{ x *vsched.Explorer }
+	cells := make([][]cell, v1-v0)
+	par := 1
+	if v1-v0 > 1 {
+		par = 4
+	}
+	sem := make(chan struct{}, par)
+	var wg sync.WaitGroup
+	for v := v0; v < v1; v++ {
+		cells[v-v0] = make([]cell, len(concPatterns))
+		wg.Add(1)
+		sem <- struct{}{}
+		go func(v int) {
+			defer wg.Done()
+			defer func() { <-sem }()
+			for pi := range concPatterns {
+				x := &vsched.Explorer{New: newConcVariant(pi, v), Bound: bound, Workers: 4, Horizon: 2000, Stop: rep.Expired}
+				x.Explore()
+				cells[v-v0][pi].x = x
+			}
+		}(v)
+	}
+	wg.Wait()
+	for v := v0; v < v1; v++ {
+		for pi, p := range concPatterns {
+			x := cells[v-v0][pi].x
+			schedules += x.Executions
+			if x.Stopped {
+				complete = false
+			}
+			msgs := make([]string, 0, len(x.Violations))
+			for m := range x.Violations {
+				msgs = append(msgs, m)
+			}
+			sort.Strings(msgs)
+			for _, m := range msgs {
+				sum := m
+				if v != 0 {
+					sum = variantName(v) + ": " + m
+				}
+				rep.Violation(core.Violation{Key: keyOf(m) + ".concurrent." + p.Name, Summary: sum,
+					Case: map[string]interface{}{"part": "dispatch-conc", "pattern": pi, "variant": v, "schedule": x.Violations[m].Choices}})
+			}
+			if v == 0 {
+				rep.Sample(map[string]interface{}{"part": "dispatch-conc", "pattern": p.Name, "preemption_bound": bound, "schedules": x.Executions, "max_points": x.MaxPoints})
+			}
 		}
-		msgs := make([]string, 0, len(x.Violations))
-		for m := range x.Violations {
-			msgs = append(msgs, m)
-		}
-		sort.Strings(msgs)
-		for _, m := range msgs {
-			rep.Violation(core.Violation{Key: keyOf(m) + ".concurrent." + p.Name, Summary: m,
-				Case: map[string]interface{}{"part": "dispatch-conc", "pattern": pi, "schedule": x.Violations[m].Choices}})
-		}
-		rep.Sample(map[string]interface{}{"part": "dispatch-conc", "pattern": p.Name, "preemption_bound": bound, "schedules": x.Executions, "max_points": x.MaxPoints})
 	}
 	return
 }
